@@ -30,6 +30,7 @@ import (
 	"strconv"
 	"strings"
 
+	"github.com/btcsuite/btcd/btcec"
 	"github.com/google/tink/go/keyset"
 
 	secpsubtle "github.com/hyperledger/aries-framework-go/component/kmscrypto/crypto/tinkcrypto/primitive/secp256k1/subtle"
@@ -108,7 +109,25 @@ func c04Get(kt, src string, i int) (*c04Key, error) {
 			kh  interface{}
 			err error
 		)
-		if src == "import" {
+		if src == "importz" {
+			// an imported EC key whose public point has a coordinate with a leading zero byte (1 key in 128): encoders that
+			// take the coordinates as minimal big-endian bytes lose the padding
+			c := map[string]elliptic.Curve{"p256": elliptic.P256(), "p384": elliptic.P384(), "p521": elliptic.P521(),
+				"k256": btcec.S256()}[strings.TrimSuffix(kt, "der")]
+			if c == nil {
+				return nil, fmt.Errorf("not importable")
+			}
+			size := (c.Params().BitSize + 7) / 8
+			d, _ := rand.Int(rand.Reader, new(big.Int).Rsh(c.Params().N, 8))
+			d.Add(d, big.NewInt(2))
+			x, y := c.ScalarBaseMult(d.Bytes())
+			for len(x.Bytes()) == size && len(y.Bytes()) == size {
+				d.Add(d, big.NewInt(1))
+				x, y = c.ScalarBaseMult(d.Bytes())
+			}
+			priv := &ecdsa.PrivateKey{PublicKey: ecdsa.PublicKey{Curve: c, X: x, Y: y}, D: d}
+			kid, kh, err = c04KMS.ImportPrivateKey(priv, c04Types[kt])
+		} else if src == "import" {
 			priv, ok := c04Import(kt)
 			if !ok {
 				return nil, fmt.Errorf("not importable")
@@ -603,6 +622,9 @@ func c04Gen(r *Rng, tier string) []string {
 			src := "create"
 			if r.N(3) == 0 && !strings.HasPrefix(kt, "k256") {
 				src = "import"
+			}
+			if r.N(6) == 0 && kt != "ed25519" && kt != "k256der" {
+				src = "importz"
 			}
 			neg := []string{"none", "msg", fmt.Sprintf("flip:%d", r.N(1000)), fmt.Sprintf("flip:%d", r.N(1000)), "trunc", "app", "pad", "key"}[r.N(8)]
 			out = append(out, fmt.Sprintf("sig|%s|%s|%s|%s|%s", kt, src, r.Pick(msgs), r.Pick([]string{"own", "exp", "exp", "pkv"}), neg))
